@@ -51,10 +51,16 @@ func main() {
 
 	tableDirect(orc)
 	selfNoop := probeF17(root)
+	byName = probeF24(root)
 
 	var wg sync.WaitGroup
 	wg.Add(2)
-	go func() { defer wg.Done(); readdirSweep(root) }()
+	go func() {
+		defer wg.Done()
+		if os.Getenv("HC16_ONLY") != "hist" { // development aid only
+			readdirSweep(root)
+		}
+	}()
 	go func() { defer wg.Done(); histories(root, selfNoop) }()
 	wg.Wait()
 	rep.Write(orc)
@@ -96,6 +102,38 @@ func probeF17(root string) (selfNoop bool) {
 		g.close()
 	}
 	rep.Note("finding switch F17: model variant selfNoop=%v (decided by replaying the witness on the implementation)", selfNoop)
+	return
+}
+
+// byName: finding switch F24 (true = as-is: paths relative to a directory descriptor go through the
+// directory's name at open time).
+var byName bool
+
+// F24 witness: mkdir a; open a -> fd; rename a -> b; path_create_directory(fd, "x") must create b/x.
+func probeF24(root string) (asIs bool) {
+	for _, eng := range []string{"interpreter", "compiler"} {
+		dir := filepath.Join(root, "f24-"+eng)
+		os.MkdirAll(dir, 0o755)
+		g := newGuest(eng, dir)
+		e0 := g.path1("path_create_directory", 3, "a")
+		e1, fd := g.pathOpen(3, "a", openArgs{Directory: true, RR: true})
+		e2 := g.rename(3, "a", 3, "b")
+		e3 := g.path1("path_create_directory", fd, "x")
+		_, errStat := os.Stat(filepath.Join(dir, "b", "x"))
+		rep.Case("f24-probe/" + eng)
+		if e0 == "ESUCCESS" && e1 == "ESUCCESS" && e2 == "ESUCCESS" && (e3 != "ESUCCESS" || errStat != nil) {
+			asIs = true
+			rep.Violate(hx.Violation{Kind: "impl-violation", Signature: "F24:path-relative-to-renamed-directory-descriptor-uses-old-name",
+				What:     "after a directory is renamed, a path relative to a descriptor of that directory is looked up under the directory's OLD name (the descriptor must keep denoting the directory)",
+				Input:    map[string]any{"engine": eng, "ops": []string{"path_create_directory(3,\"a\")", "path_open(3,\"a\",O_DIRECTORY) -> fd", "path_rename(3,\"a\",3,\"b\")", "path_create_directory(fd,\"x\")"}},
+				Expected: "ESUCCESS and b/x exists", Actual: fmt.Sprintf("%s, b/x exists: %v", e3, errStat == nil)})
+		} else if !(e0 == "ESUCCESS" && e1 == "ESUCCESS" && e2 == "ESUCCESS") {
+			rep.Violate(hx.Violation{Kind: "impl-violation", Signature: "C16:f24-probe-setup-fails",
+				What: "mkdir / open directory / rename failed on an empty tree", Input: map[string]any{"engine": eng}, Expected: "ESUCCESS x3", Actual: e0 + " " + e1 + " " + e2})
+		}
+		g.close()
+	}
+	rep.Note("finding switch F24: model variant byName=%v (decided by replaying the witness on the implementation)", asIs)
 	return
 }
 
